@@ -15,9 +15,9 @@ from props.common import merge
 from props.c13 import ATTRS, kws16
 
 TRACT_TEXTS = ['NE/4', 'Lots 1 - 3, S/2N/2', 'Lot 1, Lot 1', 'N/2, N/2', 'Lot 1(40), Lot 1(38)', 'Lots 5 - 3 and NE/4NE/4', 'NE, SW of Lot 2',
-               'That part of the N2 lying north of the river', 'Lots 1, 2, 2 and E/2E/2, E/2', '']
+               'That part of the N2 lying north of the river', 'Lots 1, 2, 2 and E/2E/2, E/2', '', 'NE', 'NE; SW', 'SE and NW']
 PLSS_TEXTS = ['T154N-R97W Sec 14: NE/4, Sec 15: Lots 1 - 3, Lot 1', 'T154-R97 Sec 14: NE/4', 'Township 154 North, Range 97 West Sec 1: N/2, N/2; Sec 2: Lot 1(40), Lot 1(38)',
-              'NE/4 of Section 14, T154N-R97W less and except the wellbore', 'T154N-R97W Sec 14 NE/4, Sec 15 W/2', 'no plss here', 'T1S-R2E Sections 5 - 3: Lots 4 - 2']
+              'NE/4 of Section 14, T154N-R97W less and except the wellbore', 'T154N-R97W Sec 14 NE/4, Sec 15 W/2', 'no plss here', 'T1S-R2E Sections 5 - 3: Lots 4 - 2', 'T154N-R97W Sec 14: NE, Sec 15: SW']
 T_KWS = [{}, {'clean_qq': True}, {'qq_depth': 1}, {'qq_depth_min': 1, 'qq_depth_max': 3}, {'break_halves': True}, {'suppress_lot_divs': True}, {'clean_qq': False, 'qq_depth_min': 3}]
 P_KWS = [{}, {'parse_qq': True}, {'segment': True}, {'sec_colon_required': True}, {'sec_colon_cautious': True}, {'default_ns': 's', 'default_ew': 'e'},
          {'layout': 'copy_all'}, {'clean_qq': True, 'parse_qq': True}, {'sec_within': True}, {'ocr_scrub': True}]
@@ -155,6 +155,11 @@ def run(tier, mode):
                 ok_history = False
                 break
             after = snap_tract(t)
+            if op[0] == 'parse' and op[1] is True and list(t.lots) + list(t.qqs) != list(res):
+                # a committed parse replaces the previous results: the object now holds exactly what this parse returned
+                fail('committed_parse_not_replacing', {'class': 'Tract', 'desc': desc, 'config': cfg, 'parse_qq': pq, 'ops': ops[:j + 1]}, list(t.lots) + list(t.qqs), list(res))
+                ok_history = False
+                break
             if op[0] in ('parse', 'preprocess') and op[1] is False:
                 dist['nocommit_checks'] += 1
                 if after != before:
